@@ -372,6 +372,13 @@ func (w *world) afterEvent(n *simNode, ev evInfo, bf nodeBefore, outs []string, 
 	st := n.vn.State()
 	ah, av := uint64(st.Height()), uint64(st.View())
 	influenced := len(outs) > 0 || ah != bf.h || av != bf.v
+	// ---- C17 / C13: the term that is installed is the term of the node's height (whatever the two loops did in whatever order) ----
+	if tic := n.vn.Term(); tic != nil {
+		if th := uint64(tic.VerifTermHeight()); th != ah {
+			w.rep.finding("C17", "installed-term-of-another-height", fmt.Sprintf("node %d is at height %d while the term it hands its messages to is the term of height %d (after: %s)", n.id, ah, th, ev.kind), w.traceInput())
+			w.rep.finding("C13", "height-moved-without-a-term", fmt.Sprintf("node %d: the height is %d, the installed term is of height %d (after: %s)", n.id, ah, th, ev.kind), w.traceInput())
+		}
+	}
 	var stores [][4]uint64
 	for _, o := range outs {
 		if strings.HasPrefix(o, "OStore ") {
@@ -392,6 +399,9 @@ func (w *world) afterEvent(n *simNode, ev evInfo, bf nodeBefore, outs []string, 
 		if influenced {
 			if ok, why := w.acceptOK(n, m, bf.h, bf.v); !ok {
 				w.rep.finding("C08", "influenced-by-unacceptable-"+m.Kind, fmt.Sprintf("node %d (h=%d,v=%d) was influenced by a %s that fails the reference predicate (%s): outs=%v", n.id, bf.h, bf.v, m.Kind, why, clip(outs)), w.traceInput())
+				if why == "sender not in committee" && (m.Kind == "PP" || m.Kind == "NV") && m.Snd.Ok {
+					w.rep.finding("C18", "outsider-accepted-as-leader", fmt.Sprintf("node %d (h=%d) acted on a %s of view %d signed by %d, which is not in the committee: the leader of a view is a member of the ordered committee: outs=%v", n.id, bf.h, m.Kind, m.view(), m.sender(), clip(outs)), w.traceInput())
+				}
 				if why == "not the leader" || why == "from the leader" || why == "not addressed to me as leader" || (why == "type/signature/leader" && m.NVType == 4 && m.Snd.Ok) {
 					// the only thing wrong with the message is the sender's role in its view: the node's idea of "leader of view v" is not committee[v mod n]
 					w.rep.finding("C18", "node-treats-another-member-as-leader", fmt.Sprintf("node %d (h=%d) acted on a %s of view %d as if the leader of that view were not member %d (%s): outs=%v", n.id, bf.h, m.Kind, m.view(), w.leaderFor(bf.h, m.view(), n.id), why, clip(outs)), w.traceInput())
